@@ -391,6 +391,13 @@ def rule_terminal(ctx):
     ctx.check(ok, "quiescence:captures-only", "quiescence considers exactly the moves with Ply::is_capture", q.where(gen[0][0] if gen else 0), bad_what="quiescence's move list is not get_filtered_moves(Ply::is_capture)")
     ev = [(bi, t) for bi, t in q.calls() if (t.get("decl") or "").endswith("Evaluator::evaluate")]
     ctx.check(len(ev) == 1 and not q.in_loop(ev[0][0]), "quiescence:stand-pat", "one static evaluation per quiescence node, before the capture loop", q.where(ev[0][0] if ev else 0), bad_what="quiescence has %d evaluate calls" % len(ev))
+    if len(ev) == 1:
+        a = mir.strip_refs(qsym.operand(ev[0][1]["args"][1]))
+        ctx.check(a[0] == "field" and a[-1] == "board" and mir.strip_refs(a[1]) == ("arg", "self"), "quiescence:evaluates-current-node", "the static evaluation is of self.board (the node being searched, from its side to move)", q.where(ev[0][0]),
+                  bad_what="quiescence evaluates `%s`, not the node's own board" % expr_str(a))
+        # stand pat: score >= beta -> beta ; score > alpha -> alpha = score, before generating captures
+        gen_b = gen[0][0] if gen else None
+        ctx.check(gen_b is not None and q.dominates(ev[0][0], gen_b), "quiescence:stand-pat-before-captures", "stand-pat is evaluated before the capture list is generated", q.where(ev[0][0]), bad_what="evaluation does not precede capture generation")
     cap = ctx.body("board::ply::Ply::is_capture")
     csym = ctx.sym(cap)
     v = csym.local(0)
